@@ -277,7 +277,7 @@ Runs(g) == IF g.stack = <<>> \/ Head(g.stack).k = "N" THEN {g}
 RECURSIVE LexFrom(_, _, _, _)
 LexFrom(b, toks, i, errs) ==       \* b: token buffer; returns [b, errs]
     IF i > Len(toks) THEN [b |-> b, errs |-> errs]
-    ELSE IF toks[i] = "bad"
+    ELSE IF toks[i] \in {"bad", "badstr", "badchr"}
          THEN IF errs < ErrorCap(b.len)     \* push_error: beyond the cap the lexeme is dropped silently
               THEN LET b1 == PushToken(b) IN LexFrom(b1, toks, i + 1, IF b1.full THEN errs ELSE errs + 1)
               ELSE LexFrom(b, toks, i + 1, errs)
@@ -340,12 +340,22 @@ BadLexeme == /\ phase = "gen" /\ g.bad < MaxBad /\ Len(g.toks) + Need(g.stack) <
              /\ g' = [g EXCEPT !.toks = Append(@, "bad"), !.cost = Append(@, 0), !.bad = @ + 1]
              /\ UNCHANGED <<phase, res>>
 
+\* an invalid lexeme IN THE PLACE OF A LITERAL: a string or character literal of a finished, otherwise error-free
+\* derivation holds a raw control character (docs/errors.md E110: U+0000..U+001F and U+007F must be escaped).
+\* Everything else of the module stays well formed, so only the lexer can reject it (an extra token anywhere, as
+\* in BadLexeme, is rejected by the parser as well).  The token keeps its place and its cost.
+BadLiteral == /\ phase = "gen" /\ g.stack = <<>> /\ g.bad = 0 /\ g.bad < MaxBad /\ g.errs = 0 /\ ~g.trunc
+              /\ \E i \in 1..Len(g.toks) :
+                    /\ g.toks[i] \in {"str", "chr"}
+                    /\ g' = [g EXCEPT !.toks[i] = (IF @ = "str" THEN "badstr" ELSE "badchr"), !.bad = @ + 1]
+              /\ UNCHANGED <<phase, res>>
+
 Finish == /\ phase = "gen" /\ g.stack = <<>>
           /\ \E dens \in Densities : res' = Run(g, dens)
           /\ phase' = "done"
           /\ UNCHANGED g
 
-Next == Expand \/ AbortN \/ BadLexeme \/ Finish
+Next == Expand \/ AbortN \/ BadLexeme \/ BadLiteral \/ Finish
 Spec == Init /\ [][Next]_vars
 
 (***************************************************************************)
